@@ -90,6 +90,12 @@ func skip(why string) *core.Violation {
 	return nil
 }
 
+func skipCount() int {
+	skipMu.Lock()
+	defer skipMu.Unlock()
+	return skipTotal
+}
+
 // ---------------------------------------------------------------------------- known findings inside one history
 
 // A history of sub-check (b)/(c) has many steps; a step that hits an *open known finding*
@@ -417,6 +423,12 @@ type fixture struct {
 	iv   []byte
 	live []string // ports of proxies the harness started and has not killed
 	log  []sockTask
+
+	// configuration / environment dimension (cfg_test.go)
+	cfg     Cfg
+	parent  *agent.Agent // the agent is a pivot child of this one
+	extras  []*fixture   // further agents with proxies of their own
+	restore []func()     // undo what the configuration changed process-wide
 }
 
 func newFixture() *fixture {
@@ -533,6 +545,26 @@ func (f *fixture) cleanup(clients []*cli) {
 			c.conn.Close()
 		}
 	}
+	for _, e := range f.extras {
+		e.cleanupTables()
+	}
+	defer func() {
+		for i := len(f.restore) - 1; i >= 0; i-- {
+			f.restore[i]()
+		}
+		f.restore = nil
+	}()
+	f.cleanupTables()
+	waitFor(waitBound, func() bool {
+		c := count()
+		return c.startPending == 0 && c.handlers == 0 && c.readers == 0 && c.pfreaders == 0
+	})
+	// an accept loop that survives the kill of every listed proxy is unreachable (see leakedStarts)
+	waitFor(150*time.Millisecond, func() bool { return count().starts == 0 })
+}
+
+// cleanupTables: kill / close whatever one agent still has registered.
+func (f *fixture) cleanupTables() {
 	unstick(&f.a.SocksSvrMtx)
 	unstick(&f.a.SocksCliMtx)
 	unstick(&f.a.PortFwdsMtx)
@@ -559,12 +591,6 @@ func (f *fixture) cleanup(clients []*cli) {
 	for _, id := range f.fwdIDs() {
 		f.a.PortFwdClose(id)
 	}
-	waitFor(waitBound, func() bool {
-		c := count()
-		return c.startPending == 0 && c.handlers == 0 && c.readers == 0 && c.pfreaders == 0
-	})
-	// an accept loop that survives the kill of every listed proxy is unreachable (see leakedStarts)
-	waitFor(150*time.Millisecond, func() bool { return count().starts == 0 })
 }
 
 // lockFree reports whether m can be acquired within the bound.  (TryLock is useless here: the
@@ -741,6 +767,7 @@ type sockTask struct {
 	Addr []byte
 	Port uint16
 	Data []byte
+	body string // the decrypted task body as the Demon reads it
 }
 
 // takeTasks empties the job queue through the real accessor and decodes every job both from
@@ -762,6 +789,15 @@ func (f *fixture) takeTasks() ([]sockTask, *core.Violation) {
 		}
 	}
 	f.log = append(f.log, out...)
+	if f.parent != nil {
+		var own []string
+		for _, t := range out {
+			own = append(own, t.body)
+		}
+		if v := f.pivotAgrees(own); v != nil {
+			return nil, v
+		}
+	}
 	return out, nil
 }
 
@@ -776,6 +812,7 @@ func (f *fixture) decodeJob(j agent.Job) (sockTask, *core.Violation) {
 		return t, core.V("task|wire|not-one-socket-task", "BuildPayloadMessage of one socket job does not read back as one COMMAND_SOCKET task (clean=%v n=%d)", clean, len(tasks))
 	}
 	d := &demonref.Dec{B: tasks[0].Body}
+	t.body = string(tasks[0].Body)
 	t.Sub = d.Int32()
 	switch t.Sub {
 	case scConnect:
